@@ -132,8 +132,15 @@ fn canon(n: &SyntaxNode, mode: M, out: &mut Vec<String>) {
             after_hash = c.kind() == K::Hash;
         }
         // optional braces around the body of a closure
-        if k == K::Closure && Some(i) == last_sig && c.kind() == K::CodeBlock {
-            if let Some(code) = sole_child(c) {
+        let mut body = *c;
+        while body.kind() == K::Parenthesized && k == K::Closure && Some(i) == last_sig {
+            match sole_child(body) {
+                Some(b) => body = b,
+                None => break,
+            }
+        }
+        if k == K::Closure && Some(i) == last_sig && body.kind() == K::CodeBlock {
+            if let Some(code) = sole_child(body) {
                 if code.kind() == K::Code {
                     if let Some(e) = sole_child(code) {
                         canon(e, M::Code, out);
@@ -270,11 +277,17 @@ fn math_view(n: &SyntaxNode, in_args: bool, out: &mut Vec<Vec<String>>) {
         out.push(vec![format!("Equation block={block}")]);
     } else if matches!(k, K::Math | K::MathDelimited) {
         let mut v: Vec<String> = vec![];
+        let mut after_hash = false;
         for c in n.children() {
             match c.kind() {
                 K::Space => v.push(ws_class(c)),
                 k if is_comment(k) => {}
+                // embedded code: which expression it is belongs to C01 (redundant parentheses may go), not to the whitespace
+                _ if after_hash => v.push("Embedded".into()),
                 k => v.push(format!("{k:?}")),
+            }
+            if c.kind() != K::Space && !is_comment(c.kind()) {
+                after_hash = c.kind() == K::Hash;
             }
         }
         if in_args && k == K::Math {
